@@ -15,7 +15,7 @@ import z3
 # statistics shared by every solver call of the process
 # --------------------------------------------------------------------------------------------
 STATS = {'feas_queries': 0, 'feas_unknown': 0, 'proof_queries': 0, 'proof_unsat': 0,
-         'proof_sat': 0, 'proof_unknown': 0, 'solver_s': 0.0, 'paths': 0, 'forks': 0, 'by_normaliser': 0}
+         'proof_sat': 0, 'proof_unknown': 0, 'solver_s': 0.0, 'paths': 0, 'forks': 0, 'by_normaliser': 0, 'second_opinions': 0}
 
 
 def stats_snapshot():
@@ -25,6 +25,87 @@ def stats_snapshot():
 def stats_add(other):
   for k, v in other.items():
     STATS[k] = STATS.get(k, 0) + v
+
+
+RLIMIT_PER_MS = 4500      # z3 resource units per millisecond (calibrated on this machine; deterministic bound)
+OLD_Z3 = '/usr/bin/z3'
+
+
+def guarded_check(solver, timeout_ms):
+  """solver.check() bounded by z3's resource limit: the wall-clock `timeout` parameter is not always
+  honoured inside nlsat, `rlimit` is.  'unknown' when the budget runs out."""
+  solver.set('rlimit', int(timeout_ms * RLIMIT_PER_MS))
+  try:
+    return str(solver.check())
+  except z3.Z3Exception:
+    return 'unknown'
+
+
+def second_opinion(solver, timeout_s=5, want_model=False):
+  """z3 4.8.12 (the Debian binary) on the exported SMT-LIB2 text -- its nlsat decides some queries the
+  5.1.0 wheel does not.  Returns ('unsat'|'sat'|'unknown', model-dict-or-None)."""
+  import os
+  import subprocess
+  import tempfile
+  if not os.path.exists(OLD_Z3):
+    return 'unknown', None
+  txt = solver.to_smt2()
+  if want_model:
+    txt += '\n(get-model)\n'
+  fd, path = tempfile.mkstemp(suffix='.smt2', dir=os.environ.get('VERIF_TMP'))
+  try:
+    with os.fdopen(fd, 'w') as f:
+      f.write(txt)
+    try:
+      out = subprocess.run([OLD_Z3, '-T:%d' % int(timeout_s), path], capture_output=True, text=True,
+                           timeout=timeout_s + 5).stdout
+    except subprocess.TimeoutExpired:
+      return 'unknown', None
+  finally:
+    try:
+      os.unlink(path)
+    except OSError:
+      pass
+  STATS['second_opinions'] = STATS.get('second_opinions', 0) + 1
+  if '(error' in out:
+    return 'unknown', None
+  lines = out.strip().splitlines()
+  first = lines[0].strip() if lines else 'unknown'
+  if first == 'unsat':
+    return 'unsat', None
+  if first == 'sat':
+    return 'sat', (_parse_model(out) if want_model else None)
+  return 'unknown', None
+
+
+def _parse_model(txt):
+  """{name: Fraction} from a (get-model) answer; None if some value is not a plain rational"""
+  import re
+  vals = {}
+  for m in re.finditer(r'\(define-fun\s+(\S+)\s+\(\)\s+(Real|Int)\s+((?:[^()]|\([^()]*\)|\((?:[^()]|\([^()]*\))*\))+?)\)\s*(?=\(define-fun|\)\s*$|$)', txt, re.S):
+    name, sort, body = m.group(1), m.group(2), m.group(3).strip()
+    v = _parse_num(body)
+    if v is None:
+      return None
+    vals[name.strip('|')] = v
+  return vals
+
+
+def _parse_num(b):
+  b = b.strip()
+  import re
+  m = re.fullmatch(r'\(-\s+(.*)\)', b, re.S)
+  if m:
+    v = _parse_num(m.group(1))
+    return None if v is None else -v
+  m = re.fullmatch(r'\(/\s+(\S+)\s+(\S+)\)', b)
+  if m:
+    a, c = _parse_num(m.group(1)), _parse_num(m.group(2))
+    return None if a is None or c is None or c == 0 else a / c
+  try:
+    return Fraction(b)
+  except (ValueError, ZeroDivisionError):
+    return None
 
 
 class PathAbort(BaseException):
@@ -55,6 +136,7 @@ class Explorer:
     self.known = {}         # per-path: literal id -> (term, truth value)
     self.warnings = []      # per-path: recorded warnings / events
     self.active = False
+    self.second_opinion = True
 
   # -- variables ---------------------------------------------------------------------------
   def fresh(self, name, sort=None):
@@ -94,11 +176,31 @@ class Explorer:
     s.set('timeout', self.timeout_ms)
     s.add(*conds)
     t0 = time.time()
-    r = str(s.check())
+    r = guarded_check(s, self.timeout_ms)
+    if r == 'unknown' and self.second_opinion:
+      r2, _ = second_opinion(s, timeout_s=4)
+      if r2 in ('sat', 'unsat'):
+        r = r2
     STATS['solver_s'] += time.time() - t0
     if r == 'unknown':
       STATS['feas_unknown'] += 1
     return r
+
+  def _sat_staged(self, pc, cond):
+    """infeasibility from a subset of the path condition is infeasibility (sound); the subset tried
+    first is the hypotheses that only mention constants of `cond` (sign facts, lemmas, sqrt axioms)"""
+    if len(pc) > 6:
+      from .solve import _consts_of
+      gc = _consts_of(cond)
+      sub = [h for h in pc if _consts_of(h) and _consts_of(h) <= gc]
+      if sub and len(sub) < len(pc):
+        old, self.timeout_ms = self.timeout_ms, min(self.timeout_ms, 2000)
+        try:
+          if self._sat(sub + [cond]) == 'unsat':
+            return 'unsat'
+        finally:
+          self.timeout_ms = old
+    return self._sat(pc + [cond])
 
   def branch(self, cond, aux=None):
     sk = _sign_knowledge(cond)          # on the raw term: simplify may push factors into If-terms
@@ -121,11 +223,11 @@ class Explorer:
       assert taken != 'choice', 'non-deterministic replay'
     else:
       pc = self.pc()
-      rt = self._sat(pc + [cond])
+      rt = self._sat_staged(pc, cond)
       if rt == 'unsat':
         taken, flippable = False, False
       else:
-        rf = self._sat(pc + [z3.Not(cond)])
+        rf = self._sat_staged(pc, z3.Not(cond))
         taken, flippable = True, (rf != 'unsat')
       if flippable:
         STATS['forks'] += 1
@@ -578,6 +680,9 @@ class Sym:
     except TypeError:
       return NotImplemented
     a, b = _coerce(self.t, b)
+    # N / D (op) c  with D known positive on this path  ->  N (op) c * D   (keeps the path condition polynomial)
+    if z3.is_app(a) and a.decl().kind() == z3.Z3_OP_DIV and known_pos(a.arg(1)):
+      a, b = a.arg(0), b * a.arg(1)
     return SymBool(f(a, b))
 
   def __lt__(self, o): return self._cmp(o, _lt, True, False)
@@ -756,10 +861,17 @@ def syntactically_nonneg(t, depth=0):
   if k == z3.Z3_OP_ADD:
     return all(syntactically_nonneg(c, depth + 1) for c in ch)
   if k == z3.Z3_OP_MUL:
-    # pair up identical factors; the rest must be non-negative
+    # pair up identical factors (through nested products); the rest must be non-negative
     rest = []
     ids = {}
-    for c in ch:
+    flat, stack = [], list(ch)
+    while stack:
+      c = stack.pop()
+      if z3.is_app(c) and c.decl().kind() == z3.Z3_OP_MUL and ('nonneg', c.get_id()) not in (EX.cache if EX is not None and EX.active else {}):
+        stack.extend(c.children())
+      else:
+        flat.append(c)
+    for c in flat:
       ids.setdefault(c.get_id(), []).append(c)
     for cs in ids.values():
       if len(cs) % 2 == 1:
@@ -800,12 +912,20 @@ def sym_sqrt(x):
       e.warnings.append(('sqrt_neg', str(t)[:80]))
       return NAN
 
+  pos = known_pos(t) or _ratio_of_pos(raw)
+
   def make():
     s = e.fresh('sqrt')
-    e.trace.append(('a', z3.And(s >= 0, s * s == t)))
+    e.trace.append(('a', z3.And(s > 0 if pos else s >= 0, s * s == t)))
     e.cache[('sqrt_arg', s.get_id())] = (s, t)
+    if pos:
+      mark_pos(s)
     return Sym(s)
-  return _memo('sqrt', t, make)
+  r = _memo('sqrt', t, make)
+  if pos and isinstance(r, Sym) and not known_pos(r.t):
+    e.trace.append(('a', r.t > 0))
+    mark_pos(r.t)
+  return r
 
 
 def _perfect_square_root(t):
